@@ -3,6 +3,7 @@ import GeoVerif.Model.GeodProj
 import GeoVerif.Model.IntersectFix
 import GeoVerif.Spec.RealInst
 import GeoVerif.Proofs.VPTree
+import GeoVerif.Proofs.VPTreeInit
 import Mathlib.Tactic.Ring
 import Mathlib.Tactic.LinearCombination
 import Mathlib.Tactic.FieldSimp
@@ -14,7 +15,9 @@ import Mathlib.Tactic.Linarith
 * Nearest neighbour: `search_is_bruteforce` (the vantage-point-tree search of `Model/VPTree.lean` — the same definitions
   the driver executes against `NearestNeighbor::Search` — returns exactly the `k` smallest distances a brute-force scan
   of the window `(mindist, maxdist]` finds, for every metric, tree satisfying `TreeInv`, query and `k`), its
-  ingredients, `checkInv_sound`, `save_load_roundtrip`, `load_rejects`.
+  ingredients, `checkInv_sound`, `save_load_roundtrip`, `load_rejects`, `load_is_forest`; `init_establishes_inv` (the
+  tree `Initialize` builds satisfies `TreeInv`, for every `nth_element` meeting its post-condition) and the end-to-end
+  `nearest_neighbor_correct` (`Search ∘ Initialize` = brute force, no hypothesis on the tree).
 * Projections: exact-real theorems about the wrapper formulas of `Model/GeodProj.lean` around an arbitrary geodesic
   kernel.
 * `Intersect`: no theorem (the tiling search is validated by the oracles of the harness only).
@@ -365,5 +368,65 @@ example : TreeInv #[.leaf [1, 2], .inner 0 0 0 (-1) 1 3 0] 2 3 (fun i j => ((exP
   checkInv_sound _ _ _ _ (by decide)
 example : search #[.leaf [1, 2], .inner 0 0 0 (-1) 1 3 0] 3 2 (fun i => ((exPt i - 2).natAbs : Int))
     { k := 2, maxdist := 100, mindist := 0, exhaustive := true, tol := 0 } = some [(1, 1), (1, 2)] := by decide
+
+
+/-! ## nearest neighbour: `Initialize` establishes the invariant -/
+
+/-- the full sort the driver uses for `std::nth_element` meets the post-condition `NthSpec` of `std::nth_element`
+    (a permutation of the range; nothing before position `nth` is greater than anything from it on; the element at `nth`
+    is not greater than any later one) — so the hypothesis of the next theorems is not vacuous -/
+theorem nth_element_sort_spec : NthSpec nthSort := nthSort_spec
+
+/--
+**`Initialize` establishes `TreeInv`.**  For every distance function `d` (no metric property is needed here), every bucket
+size (0 included) and every number of points `n`, and for every function `nth` that meets the post-condition of
+`std::nth_element` (`NthSpec`; the concrete `nthSort` does: `nth_element_sort_spec`), the node array produced by the
+model `init` of `NearestNeighbor::Initialize`/`init` (`Model/VPTree.lean`: vantage point swapped to the front, distances
+to it, partition at the median by `nth`, `lower/upper[0]` = min/max of the inner half, `lower[1]` = the distance at the
+median position, `upper[1]` = max of the outer half, the farthest point of each half as its vantage point, children stored
+before the parent, bucket leaves sorted and padded with −1, the `bucket = 0` single-point nodes) satisfies `TreeInv`:
+the last node is the root of a finite tree of nodes in which every point index `0 … n−1` occurs exactly once and, for each
+internal node with vantage point `v` and each child `l`, every point `p` below that child has
+`lower[l] ≤ d v p ≤ upper[l]`.  (That children are stored before their parents, with the other demands of `Node::Check`,
+is `init_wellformed`.)  The driver compares this `init` (with `nth = nthSort`) with the tree `Initialize` really
+builds (op `nn_init`).
+-/
+theorem init_establishes_inv (nth : Nat → List IdItem → List IdItem) (hn : NthSpec nth) (d : Nat → Nat → Int)
+    (bucket n : Nat) : TreeInv (init nth d bucket n).nodes.toArray bucket n d :=
+  init_treeInv hn d bucket n
+
+/-- the instance the driver executes -/
+example (d : Nat → Nat → Int) (bucket n : Nat) : TreeInv (init nthSort d bucket n).nodes.toArray bucket n d :=
+  init_establishes_inv nthSort nth_element_sort_spec d bucket n
+
+/--
+**Nearest-neighbour search is correct, end to end** — no hypothesis about the tree.  For any metric space `(α, dist)`
+(`dist x x = 0`, symmetric, triangle inequality; `ℤ`-valued), any points `pt 0 … pt (n−1)`, any bucket size, any
+`nth_element` meeting its post-condition, any query point `q`, any `k`, `maxdist`, `mindist`, `exhaustive = true`,
+`tol = 0`: `Search` on the tree built by `Initialize` (both as modelled in `Model/VPTree.lean` and run by the driver
+against the implementation) terminates and returns, ascending, exactly the distances of the `k` nearest points of the
+window `mindist < d ≤ maxdist` that a brute-force scan finds.
+-/
+theorem nearest_neighbor_correct {α : Type} (dist : α → α → Int) (pt : Nat → α) (q : α)
+    (h0 : ∀ x, dist x x = 0) (hsymm : ∀ x y, dist x y = dist y x) (htri : ∀ x y z, dist x z ≤ dist x y + dist y z)
+    (nth : Nat → List IdItem → List IdItem) (hn : NthSpec nth) (n bucket : Nat) (Q : Query)
+    (hex : Q.exhaustive = true) (htol : Q.tol = 0) :
+    ∃ res, search (init nth (fun i j => dist (pt i) (pt j)) bucket n).nodes.toArray n bucket (fun i => dist (pt i) q) Q = some res ∧
+      res.map (·.1) = bruteforce n (fun i => dist (pt i) q) Q :=
+  search_is_bruteforce dist pt q h0 hsymm htri _ n bucket Q hex htol
+    (init_establishes_inv nth hn (fun i j => dist (pt i) (pt j)) bucket n)
+
+/-- … and the returned indices are distinct points of the set at exactly those distances -/
+theorem nearest_neighbor_returns_points {α : Type} (dist : α → α → Int) (pt : Nat → α) (q : α)
+    (nth : Nat → List IdItem → List IdItem) (hn : NthSpec nth) (n bucket : Nat) (Q : Query) (res : List Item)
+    (h : search (init nth (fun i j => dist (pt i) (pt j)) bucket n).nodes.toArray n bucket (fun i => dist (pt i) q) Q = some res) :
+    (res.map (·.2)).Nodup ∧ ∀ it ∈ res, ∃ p, p < n ∧ it = (dist (pt p) q, (p : Int)) :=
+  search_returns_points dist pt q _ n bucket Q (init_establishes_inv nth hn (fun i j => dist (pt i) (pt j)) bucket n) res h
+
+/-- a concrete run: the five points 0, 3, 6, 2, 5 on a line, bucket 2 — the tree, and a search on it -/
+def exD (i j : Nat) : Int := (((i : Int) * 3 % 7 - (j : Int) * 3 % 7).natAbs : Int)
+example : (init nthSort exD 2 5).nodes = [.leaf [4, 1], .leaf [3, 0], .inner 2 1 3 0 4 6 1] := by decide
+example : search (init nthSort exD 2 5).nodes.toArray 5 2 (fun i => (((i : Int) * 3 % 7 - 4).natAbs : Int))
+    { k := 2, maxdist := 100, mindist := 0, exhaustive := true, tol := 0 } = some [(1, 1), (1, 4)] := by decide
 
 end GeoVerif.Props.C17
